@@ -18,7 +18,7 @@ LEVEL = "exploration"
 RULE = ("result tables from the four result paths (streamed, ordered buffer, single aggregate row, grouped rows) with "
         "0, 1 and many rows and 1..6 distinct columns over trees whose names come from adversarial classes (all ASCII "
         "punctuation, quotes, comma, semicolon, < > &, tab and newline, leading/trailing spaces, multi-byte UTF-8, "
-        "number/boolean/null look-alikes) and long rows (> 8 KiB and > 64 KiB via nested multi-byte directories and "
+        "number/boolean/null look-alikes), one root or 2-4 roots in FROM (rows split between roots, an empty root, a root listed twice, root options), and long rows (> 8 KiB and > 64 KiB via nested multi-byte directories and "
         "concat). Each table is requested in all six formats; `into list` is the reference T. Oracle: JSON parses to a "
         "list of objects that carry T's rows under a consistent key->column assignment; CSV parses (strict) to T; "
         "HTML matches a strict grammar and its unescaped cells are T; tabs/lines split back to T when no value contains "
@@ -75,7 +75,14 @@ def strategy_(draw, tier):
     elif path == "grouped":
         key = draw(st.sampled_from(["name", "name", "ext", "dir", "path"]))
         cols = [key] + draw(st.lists(st.sampled_from(["count(*)", "sum(size)", "max(size)"]), min_size=0, max_size=2, unique=True))
-    return {"tree": tree, "path": path, "cols": cols, "where": where,
+    roots = None
+    if not long_rows and draw(st.sampled_from(range(3))) == 0:
+        # several roots in FROM: the separators/brackets of a format must not depend on where a root's rows start
+        items = sorted(tree.items())
+        cut = draw(st.sampled_from(range(len(items) + 1)))
+        tree = {"r1": {"t": "d", "ch": dict(items[:cut])}, "r2": {"t": "d", "ch": dict(items[cut:])}, "r3": {"t": "d", "ch": {}}}
+        roots = draw(st.lists(st.sampled_from(["r1", "r2", "r3", ".", "r1 depth 1", "r2 bfs"]), min_size=2, max_size=4))
+    return {"tree": tree, "path": path, "cols": cols, "where": where, "roots": roots,
             "limit": draw(st.sampled_from([None, None, None, 1, 3])) if path in ("streamed", "ordered") else None}
 
 
@@ -84,7 +91,7 @@ def strategy(tier):
 
 
 def query(case, fmt):
-    q = "select " + ", ".join(case["cols"]) + " from ."
+    q = "select " + ", ".join(case["cols"]) + " from " + (", ".join(case["roots"]) if case.get("roots") else ".")
     if case["where"]:
         q += " where " + case["where"]
     if case["path"] == "grouped":
@@ -281,6 +288,8 @@ def check(case):
                 out.classes.append("nontrivial:%s/%s" % (fmt, case["path"]))
         out.classes += ["path=" + case["path"], "rows=%s" % ("0" if not T else "1" if len(T) == 1 else "many"),
                         "cols=%d" % k]
+        if case.get("roots"):
+            out.classes.append("several-roots")
         if rowlen > 65536:
             out.classes.append("row>64KiB")
         elif rowlen > 8192:
